@@ -1,5 +1,6 @@
 import FiberModel.C16.Spec
 import FiberModel.C16.ListLemmas
+import FiberModel.C19.Origin
 /-
 C16 — the constructor's trusted-origin tables (`buildLoop`, `normalizeOrigin`, `Sub.match`) against
 the specification's independent reading of the configuration strings (`specEntry`,
@@ -8,166 +9,172 @@ the specification's independent reading of the configuration strings (`specEntry
 namespace C16
 open B
 
-def stripSlash (r : Bytes) : Bytes := if r.getLast? = some 47 then r.dropLast else r
+/-! ### the URL reader: schemes hold no colon -/
+
+/-- the scheme `net/url` reports holds no colon (consequence of the transcription, `C19.parse_scheme_no_colon`) -/
+def UrlInfo.wf (u : UrlInfo) : Prop := 58 ∉ u.scheme
+
+theorem urlInfoOf_wf (t : Bytes) : (urlInfoOf t).wf := by
+  unfold UrlInfo.wf urlInfoOf
+  cases h : C19.Url.parse t with
+  | none => simp
+  | some u => exact fun m => C19.parse_scheme_no_colon t u h 58 m rfl
+
+theorem Req.ourl_wf (q : Req) : q.ourl.wf := urlInfoOf_wf _
+theorem Req.rurl_wf (q : Req) : q.rurl.wf := urlInfoOf_wf _
+
+theorem scheme_http (s : Bytes) (h : s = b "http" ∨ s = b "https") : 58 ∉ s ∧ toLower s = s := by
+  rcases h with h | h <;> subst h <;> exact ⟨by decide, by decide⟩
+
+/-! ### `normalizeOrigin` is the specification's reading of a URL text -/
+
+/-- helpers.go `normalizeOrigin` accepts exactly the texts that denote an origin, and answers that
+    origin written as `scheme://host`. -/
+theorem normalizeOrigin_eq (o : Bytes) :
+    normalizeOrigin o = (originOfText o).map fun p => p.1 ++ b "://" ++ p.2 := by
+  unfold normalizeOrigin originOfText
+  cases hp : C19.Url.parse o with
+  | none => rfl
+  | some u =>
+    simp only
+    by_cases hs : u.scheme = b "http" ∨ u.scheme = b "https"
+    · have hl := (scheme_http _ hs).2
+      have hs' : ¬ (u.scheme ≠ b "http" ∧ u.scheme ≠ b "https") := by
+        rcases hs with e | e <;> simp [e]
+      rw [if_neg hs']
+      by_cases h1 : 42 ∈ u.host
+      · simp [h1]
+      · by_cases h2 : u.host = [] <;> by_cases h3 : u.path = [] <;> by_cases h4 : u.path = b "/" <;>
+          by_cases h5 : u.rawQuery = [] <;> by_cases h6 : u.fragment = [] <;>
+          simp [hs, h1, h2, h3, h4, h5, h6, hl]
+    · have hs' : u.scheme ≠ b "http" ∧ u.scheme ≠ b "https" := by
+        constructor <;> intro e <;> exact hs (by simp [e])
+      rw [if_pos hs']
+      simp [hs]
+
+theorem originOfText_scheme (o s h : Bytes) (hh : originOfText o = some (s, h)) : 58 ∉ s ∧ h ≠ [] := by
+  unfold originOfText at hh
+  cases hp : C19.Url.parse o with
+  | none => simp [hp] at hh
+  | some u =>
+    simp only [hp] at hh
+    split at hh
+    · rename_i hc
+      simp only [Option.some.injEq, Prod.mk.injEq] at hh
+      obtain ⟨e1, e2⟩ := hh
+      subst e1
+      refine ⟨(scheme_http _ hc.1).1, ?_⟩
+      intro e
+      rw [← e2] at e
+      have := congrArg List.length e
+      simp [toLower_length] at this
+      exact hc.2.1 this
+    · simp at hh
 
 /-- what a successful `normalizeOrigin` tells -/
 theorem normalizeOrigin_some (o n : Bytes) (h : normalizeOrigin o = some n) :
-    ∃ i, indexOf o (b "://") = some i ∧
-      (toLower (o.take i) = b "http" ∨ toLower (o.take i) = b "https") ∧
-      47 ∉ stripSlash (o.drop (i + 3)) ∧ 42 ∉ stripSlash (o.drop (i + 3)) ∧
-      n = toLower (o.take i) ++ b "://" ++ toLower (stripSlash (o.drop (i + 3))) := by
-  unfold normalizeOrigin at h
-  split at h
-  · simp at h
-  · rename_i i hi
-    refine ⟨i, hi, ?_⟩
-    have hs : (if (o.drop (i + 3)).getLast? = some 47 then (o.drop (i + 3)).dropLast else o.drop (i + 3))
-        = stripSlash (o.drop (i + 3)) := rfl
-    simp only [hs] at h
-    generalize stripSlash (o.drop (i + 3)) = host at h ⊢
-    generalize toLower (o.take i) = scheme at h ⊢
-    split at h
-    · simp at h
-    · rename_i hc
-      simp only [Option.some.injEq] at h
-      simp only [Bool.or_eq_true, decide_eq_true_eq, not_or, Bool.not_eq_true] at hc
-      obtain ⟨⟨⟨⟨⟨⟨h1, _⟩, h47⟩, h42⟩, _⟩, _⟩, _⟩ := hc
-      refine ⟨?_, ?_, ?_, h.symm⟩
-      · by_cases e : scheme = b "http"
-        · exact Or.inl e
-        · by_cases e' : scheme = b "https"
-          · exact Or.inr e'
-          · exact absurd ⟨e, e'⟩ h1
-      · simpa using h47
-      · simpa using h42
+    ∃ s h', originOfText o = some (s, h') ∧ n = s ++ b "://" ++ h' ∧ 58 ∉ s := by
+  rw [normalizeOrigin_eq] at h
+  cases ho : originOfText o with
+  | none => simp [ho] at h
+  | some p =>
+    obtain ⟨s, h'⟩ := p
+    simp only [ho, Option.map_some, Option.some.injEq] at h
+    exact ⟨s, h', rfl, h.symm, (originOfText_scheme o s h' ho).1⟩
 
-theorem colon_not_in_scheme (s : Bytes) (h : s = b "http" ∨ s = b "https") : 58 ∉ s := by
-  rcases h with h | h <;> subst h <;> decide
-
-theorem stripSlash_cons (c : Nat) (r : Bytes) (hc : c ≠ 47) : stripSlash (c :: r) = c :: stripSlash r := by
-  unfold stripSlash
-  cases r with
-  | nil => simp [hc]
-  | cons x xs => simp only [List.getLast?_cons_cons, List.dropLast]; split <;> rfl
-
-theorem mem_stripSlash_mid (A t : Bytes) (c : Nat) (ht : t ≠ []) : c ∈ stripSlash (A ++ c :: t) := by
-  unfold stripSlash
-  split
-  · have : (A ++ c :: t).dropLast = A ++ c :: t.dropLast := by
-      rw [List.dropLast_append_of_ne_nil (by simp)]
-      cases t with
-      | nil => exact absurd rfl ht
-      | cons x xs => simp [List.dropLast]
-    rw [this]; simp
-  · simp
-
-theorem toLower_cons_dot (r : Bytes) : toLower (46 :: r) = 46 :: toLower r := by
-  simp [toLower, lowerByte, isUpper]
+/-- the split of a normalised origin behind its own `://` -/
+theorem wildcardSplit_eq (s h : Bytes) (hs : 58 ∉ s) :
+    wildcardSplit (s ++ b "://" ++ h) =
+      if h.head? = some 46 then some { pre := s ++ b "://", suf := h } else none := by
+  unfold wildcardSplit
+  have hidx : indexOf (s ++ b "://" ++ h) (b "://") = some s.length :=
+    C19.indexOf_after_free s (b "://") h 58 [47, 47] (by decide) (fun x hx e => hs (e ▸ hx))
+  have hlen : s.length + 3 = (s ++ b "://").length := by simp [b]
+  have htake : (s ++ b "://" ++ h).take (s.length + 3) = s ++ b "://" := by
+    rw [hlen]; exact List.take_left' rfl
+  have hdrop : (s ++ b "://" ++ h).drop (s.length + 3) = h := by
+    rw [hlen]; exact List.drop_left' rfl
+  simp only [hidx, htake, hdrop]
 
 /-- An entry without `://*.` that the constructor accepts: the specification reads it as the same
     exact `scheme://host`. -/
-theorem entry_exact (raw n : Bytes)
+theorem entry_exact (raw n : Bytes) (hi : indexOf (trim raw 32) (b "://*.") = none)
     (hn : normalizeOrigin (trim raw 32) = some n) :
     ∃ s h, specEntry raw = some (.exact s h) ∧ n = s ++ b "://" ++ h ∧ 58 ∉ s := by
-  obtain ⟨i, hi, hsch, _, h42, hnn⟩ := normalizeOrigin_some _ _ hn
-  refine ⟨toLower ((trim raw 32).take i), toLower (stripSlash ((trim raw 32).drop (i + 3))), ?_, hnn,
-    colon_not_in_scheme _ hsch⟩
+  obtain ⟨s, h, ho, hnn, hc⟩ := normalizeOrigin_some _ _ hn
+  refine ⟨s, h, ?_, hnn, hc⟩
   unfold specEntry
-  simp only [hi]
-  have hs : (if ((trim raw 32).drop (i + 3)).getLast? = some 47 then ((trim raw 32).drop (i + 3)).dropLast
-      else (trim raw 32).drop (i + 3)) = stripSlash ((trim raw 32).drop (i + 3)) := rfl
-  simp only [hs]
-  generalize stripSlash ((trim raw 32).drop (i + 3)) = host at h42 ⊢
-  have : hasPrefix host (b "*.") = false := by
-    cases host with
-    | nil => rfl
-    | cons x xs =>
-      have hx : x ≠ 42 := by intro e; subst e; simp at h42
-      have hx' : ¬ 42 = x := fun e => hx e.symm
-      simp [hasPrefix, b, List.isPrefixOf, hx']
-  simp [this]
+  simp only [hi, ho]
 
-/-- A wildcard entry `…://*.…` that the constructor accepts: the scheme ends where the wildcard
-    marker starts, the stored pair is (`scheme://`, `.domain`), and the specification reads the entry
-    as `wild scheme domain`. -/
-theorem entry_wild (raw n : Bytes) (i : Nat) (hi : indexOf (trim raw 32) (b "://*.") = some i)
-    (hn : normalizeOrigin ((trim raw 32).take (i + 3) ++ (trim raw 32).drop (i + 4)) = some n) :
-    ∃ s d, specEntry raw = some (.wild s d) ∧ n.take (i + 3) = s ++ b "://" ∧ n.drop (i + 3) = 46 :: d ∧
-      58 ∉ s := by
-  generalize hto : trim raw 32 = o at hi hn
-  obtain ⟨p, r, ho, hp⟩ := indexOf_split _ _ _ hi
-  -- the entry with the `*` cut out
-  have hcut : o.take (i + 3) ++ o.drop (i + 4) = p ++ b "://" ++ 46 :: r := by
-    subst ho hp
-    have e1 : p ++ b "://*." ++ r = (p ++ b "://") ++ (42 :: 46 :: r) := by simp [b]
-    have l1 : (p ++ b "://").length = p.length + 3 := by simp [b]
-    have e2 : p ++ b "://*." ++ r = (p ++ b "://" ++ [42]) ++ (46 :: r) := by simp [b]
-    have l2 : (p ++ b "://" ++ [42]).length = p.length + 4 := by simp [b]
-    have t : (p ++ b "://*." ++ r).take (p.length + 3) = p ++ b "://" := by
-      rw [e1]; exact List.take_left' l1
-    have d : (p ++ b "://*." ++ r).drop (p.length + 4) = 46 :: r := by
-      rw [e2]; exact List.drop_left' l2
-    rw [t, d]
-  rw [hcut] at hn
-  obtain ⟨j, hj, hsch, h47, _, hnn⟩ := normalizeOrigin_some _ _ hn
-  have hji : j ≤ i := by
-    have := indexOf_min _ _ p (46 :: r) j hj rfl
-    omega
-  -- the first `://` of the cut entry is the one in front of the wildcard
-  have hij : j = i := by
-    by_cases hlt : j < i
-    · exfalso
-      apply h47
-      have e : p ++ b "://" ++ 46 :: r = (p ++ [58, 47]) ++ 47 :: 46 :: r := by simp [b]
-      have l : j + 3 ≤ (p ++ [58, 47]).length := by simp; omega
-      rw [e, List.drop_append_of_le_length l]
-      exact mem_stripSlash_mid _ _ 47 (by simp)
-    · omega
-  subst hij
-  have htake : (p ++ b "://" ++ 46 :: r).take j = p := by
-    rw [List.append_assoc, ← hp]; simp
-  have hdrop : (p ++ b "://" ++ 46 :: r).drop (j + 3) = 46 :: r := by
-    have l1 : (p ++ b "://").length = j + 3 := by simp [b, hp]
-    rw [← l1]; simp
-  rw [htake, hdrop, stripSlash_cons 46 r (by decide), toLower_cons_dot] at hnn
-  rw [htake] at hsch
-  refine ⟨toLower p, toLower (stripSlash r), ?_, ?_, ?_, colon_not_in_scheme _ hsch⟩
-  · -- the specification's reading
-    have hj' : ∃ j', indexOf o (b "://") = some j' ∧ j' ≤ j := by
-      have e : o = p ++ b "://" ++ (42 :: 46 :: r) := by rw [ho]; simp [b]
-      obtain ⟨j', h1, h2⟩ := indexOf_le (b "://") p (42 :: 46 :: r)
-      exact ⟨j', by rw [e]; exact h1, by omega⟩
-    obtain ⟨j', hj', hle⟩ := hj'
-    have hjj : j' = j := by
-      by_cases hlt : j' < j
-      · exfalso
-        obtain ⟨p', r', ho', hp'⟩ := indexOf_split _ _ _ hj'
-        -- `p' ++ "://"` is a prefix of `p ++ "://"`, hence of the cut entry as well
-        have pre1 : (p' ++ b "://") <+: o := ⟨r', by rw [ho']⟩
-        have pre2 : (p ++ b "://") <+: o := ⟨42 :: 46 :: r, by rw [ho]; simp [b]⟩
-        have hlen : (p' ++ b "://").length ≤ (p ++ b "://").length := by simp [b]; omega
-        obtain ⟨t, ht⟩ := List.prefix_of_prefix_length_le pre1 pre2 hlen
-        have : p ++ b "://" ++ 46 :: r = p' ++ b "://" ++ (t ++ 46 :: r) := by
-          rw [← ht]; simp
-        have := indexOf_min _ _ p' (t ++ 46 :: r) j hj this
-        omega
-      · omega
-    subst hjj
-    have htake' : o.take j' = p := by rw [ho, List.append_assoc, ← hp]; simp
-    have hdrop' : o.drop (j' + 3) = 42 :: 46 :: r := by
-      have e : o = (p ++ b "://") ++ (42 :: 46 :: r) := by rw [ho]; simp [b]
-      have l1 : (p ++ b "://").length = j' + 3 := by simp [b, hp]
-      rw [e, ← l1]; simp
-    unfold specEntry
-    simp only [hto, hj', htake', hdrop']
-    have hs : (if (42 :: 46 :: r).getLast? = some 47 then (42 :: 46 :: r).dropLast else 42 :: 46 :: r)
-        = stripSlash (42 :: 46 :: r) := rfl
-    rw [hs, stripSlash_cons 42 _ (by decide), stripSlash_cons 46 _ (by decide)]
-    simp [hasPrefix, b, List.isPrefixOf]
-  · have l : (toLower p ++ b "://").length = j + 3 := by simp [toLower_length, b, hp]
-    rw [hnn]; exact List.take_left' l
-  · have l : (toLower p ++ b "://").length = j + 3 := by simp [toLower_length, b, hp]
-    rw [hnn]; exact List.drop_left' l
+/-- … and conversely: an entry without `://*.` that denotes an origin is accepted and stored as that
+    origin. -/
+theorem entry_exact_conv (raw s h : Bytes) (hi : indexOf (trim raw 32) (b "://*.") = none)
+    (hs : specEntry raw = some (.exact s h)) :
+    normalizeOrigin (trim raw 32) = some (s ++ b "://" ++ h) ∧ 58 ∉ s := by
+  unfold specEntry at hs
+  simp only [hi] at hs
+  cases ho : originOfText (trim raw 32) with
+  | none => simp [ho] at hs
+  | some p =>
+    obtain ⟨s', h'⟩ := p
+    simp only [ho, Option.some.injEq, TrustEntry.exact.injEq] at hs
+    obtain ⟨e1, e2⟩ := hs
+    subst e1 e2
+    exact ⟨by rw [normalizeOrigin_eq, ho]; rfl, (originOfText_scheme _ _ _ ho).1⟩
+
+/-- A wildcard entry `…://*.…` that the constructor accepts: the stored pair is (`scheme://`,
+    `.domain`), and the specification reads the entry as `wild scheme domain`. -/
+theorem entry_wild (raw n : Bytes) (i : Nat) (sd : Sub) (hi : indexOf (trim raw 32) (b "://*.") = some i)
+    (hn : normalizeOrigin ((trim raw 32).take (i + 3) ++ (trim raw 32).drop (i + 4)) = some n)
+    (hw : wildcardSplit n = some sd) :
+    ∃ s d, specEntry raw = some (.wild s d) ∧ sd.pre = s ++ b "://" ∧ sd.suf = 46 :: d ∧ 58 ∉ s := by
+  obtain ⟨s, h, ho, hnn, hc⟩ := normalizeOrigin_some _ _ hn
+  subst hnn
+  rw [wildcardSplit_eq s h hc] at hw
+  split at hw
+  · rename_i hd
+    simp only [Option.some.injEq] at hw
+    subst hw
+    cases h with
+    | nil => simp at hd
+    | cons x d =>
+      simp only [List.head?_cons, Option.some.injEq] at hd
+      subst hd
+      refine ⟨s, d, ?_, rfl, rfl, hc⟩
+      unfold specEntry
+      simp only [hi, ho, List.head?_cons, if_true, List.drop_succ_cons, List.drop_zero]
+  · simp at hw
+
+/-- … and conversely: a wildcard entry that denotes `wild scheme domain` is accepted and stored as
+    (`scheme://`, `.domain`). -/
+theorem entry_wild_conv (raw s d : Bytes) (i : Nat) (hi : indexOf (trim raw 32) (b "://*.") = some i)
+    (hs : specEntry raw = some (.wild s d)) :
+    normalizeOrigin ((trim raw 32).take (i + 3) ++ (trim raw 32).drop (i + 4)) = some (s ++ b "://" ++ 46 :: d) ∧
+    wildcardSplit (s ++ b "://" ++ 46 :: d) = some { pre := s ++ b "://", suf := 46 :: d } ∧ 58 ∉ s := by
+  unfold specEntry at hs
+  simp only [hi] at hs
+  cases ho : originOfText ((trim raw 32).take (i + 3) ++ (trim raw 32).drop (i + 4)) with
+  | none => simp [ho] at hs
+  | some p =>
+    obtain ⟨s', h'⟩ := p
+    simp only [ho] at hs
+    split at hs
+    · rename_i hd
+      simp only [Option.some.injEq, TrustEntry.wild.injEq] at hs
+      obtain ⟨e1, e2⟩ := hs
+      subst e1
+      cases h' with
+      | nil => simp at hd
+      | cons x t =>
+        simp only [List.head?_cons, Option.some.injEq] at hd
+        subst hd
+        simp only [List.drop_succ_cons, List.drop_zero] at e2
+        subst e2
+        have hc := (originOfText_scheme _ _ _ ho).1
+        refine ⟨by rw [normalizeOrigin_eq, ho]; rfl, ?_, hc⟩
+        rw [wildcardSplit_eq _ _ hc]
+        simp
+    · simp at hs
 
 /-- the stored exact origin `n` stands for the specification entry `e` -/
 def ExactRel (n : Bytes) (e : TrustEntry) : Prop :=
@@ -197,7 +204,10 @@ theorem buildLoop_sound (raw : List Bytes) (os : List Bytes) (ss : List Sub) (os
       split at h
       · simp at h
       · rename_i n hn
-        obtain ⟨s, d, hspec, hpre, hsuf, hcol⟩ := entry_wild o n i hi hn
+        split at h
+        · simp at h
+        rename_i sd0 hw
+        obtain ⟨s, d, hspec, hpre, hsuf, hcol⟩ := entry_wild o n i sd0 hi hn hw
         obtain ⟨ih1, ih2⟩ := ih _ _ h
         refine ⟨fun m hm => ?_, fun sd hsd => ?_⟩
         · rcases ih1 m hm with h' | ⟨r, hr, e, he, hrel⟩
@@ -210,10 +220,11 @@ theorem buildLoop_sound (raw : List Bytes) (os : List Bytes) (ss : List Sub) (os
               subst h''
               exact Or.inr ⟨o, by simp, _, hspec, s, d, rfl, hpre, hsuf, hcol⟩
           · exact Or.inr ⟨r, List.mem_cons_of_mem _ hr, e, he, hrel⟩
-    · split at h
+    · rename_i hi
+      split at h
       · simp at h
       · rename_i n hn
-        obtain ⟨s, hh, hspec, hnn, hcol⟩ := entry_exact o n hn
+        obtain ⟨s, hh, hspec, hnn, hcol⟩ := entry_exact o n hi hn
         obtain ⟨ih1, ih2⟩ := ih _ _ h
         refine ⟨fun m hm => ?_, fun sd hsd => ?_⟩
         · rcases ih1 m hm with h' | ⟨r, hr, e, he, hrel⟩
@@ -285,18 +296,262 @@ theorem trusted_sound (raw : List Bytes) (cfg : Cfg)
     · simp at h'
     · exact ⟨e, List.mem_filterMap.mpr ⟨r, hr, he⟩, wildRel_admits sd e sch host hrel hc hm⟩
 
-/-- `net/url` schemes contain no colon (assumption on the URL parser parameter; the driver checks it
-    on every case) -/
-def UrlInfo.wf (u : UrlInfo) : Prop := 58 ∉ u.scheme
+/-! ### … and conversely: everything the configured strings admit, the handler trusts -/
+
+theorem specEntry_shape (r : Bytes) (e : TrustEntry) (h : specEntry r = some e) :
+    (indexOf (trim r 32) (b "://*.") = none ∧ ∃ s h', e = .exact s h') ∨
+    (∃ i, indexOf (trim r 32) (b "://*.") = some i ∧ ∃ s d, e = .wild s d) := by
+  unfold specEntry at h
+  simp only at h
+  split at h
+  · rename_i i hi
+    right
+    refine ⟨i, hi, ?_⟩
+    split at h
+    · split at h
+      · simp only [Option.some.injEq] at h; exact ⟨_, _, h.symm⟩
+      · simp at h
+    · simp at h
+  · rename_i hi
+    left
+    refine ⟨hi, ?_⟩
+    split at h
+    · simp only [Option.some.injEq] at h; exact ⟨_, _, h.symm⟩
+    · simp at h
+
+/-- the loop only appends -/
+theorem buildLoop_mono (raw : List Bytes) (os : List Bytes) (ss : List Sub) (os' : List Bytes) (ss' : List Sub)
+    (h : buildLoop raw os ss = some (os', ss')) : (∀ n ∈ os, n ∈ os') ∧ (∀ sd ∈ ss, sd ∈ ss') := by
+  induction raw generalizing os ss with
+  | nil =>
+    simp only [buildLoop, Option.some.injEq, Prod.mk.injEq] at h
+    obtain ⟨h1, h2⟩ := h
+    subst h1 h2
+    exact ⟨fun n hn => hn, fun sd hsd => hsd⟩
+  | cons o rest ih =>
+    unfold buildLoop at h
+    simp only at h
+    split at h
+    · split at h
+      · simp at h
+      · split at h
+        · simp at h
+        · obtain ⟨i1, i2⟩ := ih _ _ h
+          exact ⟨i1, fun sd hsd => i2 sd (List.mem_append_left _ hsd)⟩
+    · split at h
+      · simp at h
+      · obtain ⟨i1, i2⟩ := ih _ _ h
+        exact ⟨fun n hn => i1 n (List.mem_append_left _ hn), i2⟩
+
+/-- Every configured string that denotes something is stored by the constructor loop. -/
+theorem buildLoop_complete (raw : List Bytes) (os : List Bytes) (ss : List Sub) (os' : List Bytes) (ss' : List Sub)
+    (h : buildLoop raw os ss = some (os', ss')) :
+    ∀ r ∈ raw, ∀ e, specEntry r = some e → (∃ n ∈ os', ExactRel n e) ∨ (∃ sd ∈ ss', WildRel sd e) := by
+  induction raw generalizing os ss with
+  | nil => intro r hr; simp at hr
+  | cons o rest ih =>
+    intro r hr e he
+    unfold buildLoop at h
+    simp only at h
+    rcases List.mem_cons.mp hr with hro | hrr
+    · subst hro
+      rcases specEntry_shape r e he with ⟨hi, s, h', rfl⟩ | ⟨i, hi, s, d, rfl⟩
+      · obtain ⟨hn, hc⟩ := entry_exact_conv r s h' hi he
+        simp only [hi, hn] at h
+        left
+        exact ⟨s ++ b "://" ++ h', (buildLoop_mono _ _ _ _ _ h).1 _ (by simp), s, h', rfl, rfl, hc⟩
+      · obtain ⟨hn, hw, hc⟩ := entry_wild_conv r s d i hi he
+        simp only [hi, hn, hw] at h
+        right
+        exact ⟨{ pre := s ++ b "://", suf := 46 :: d }, (buildLoop_mono _ _ _ _ _ h).2 _ (by simp), s, d, rfl, rfl, rfl, hc⟩
+    · split at h
+      · split at h
+        · simp at h
+        · split at h
+          · simp at h
+          · exact ih _ _ h r hrr e he
+      · split at h
+        · simp at h
+        · exact ih _ _ h r hrr e he
+
+theorem admits_exactRel (n : Bytes) (e : TrustEntry) (sch host : Bytes) (hrel : ExactRel n e)
+    (ha : e.admits sch host = true) : sch ++ b "://" ++ host = n := by
+  obtain ⟨s, h, he, hn, _⟩ := hrel
+  subst he
+  simp only [TrustEntry.admits, Bool.and_eq_true, decide_eq_true_eq] at ha
+  rw [hn, ha.1, ha.2]
+
+theorem admits_wildRel (sd : Sub) (e : TrustEntry) (sch host : Bytes) (hrel : WildRel sd e)
+    (ha : e.admits sch host = true) : sd.match (sch ++ b "://" ++ host) = true := by
+  obtain ⟨s, d, he, hpre, hsuf, _⟩ := hrel
+  subst he
+  simp only [TrustEntry.admits, Bool.and_eq_true, decide_eq_true_eq, hasSuffix, b] at ha
+  obtain ⟨hs, hsf⟩ := ha
+  subst hs
+  rw [List.isSuffixOf_iff_suffix] at hsf
+  have hsf' : (46 :: d) <:+ host := by simpa using hsf
+  unfold Sub.match hasPrefix hasSuffix
+  rw [hpre, hsuf]
+  simp only [Bool.and_eq_true, decide_eq_true_eq]
+  refine ⟨⟨?_, ?_⟩, ?_⟩
+  · have := hsf'.length_le
+    simp only [List.length_append, List.length_cons] at this ⊢
+    omega
+  · rw [List.isPrefixOf_iff_prefix]; exact List.prefix_append _ _
+  · rw [List.isSuffixOf_iff_suffix]
+    exact hsf'.trans (List.suffix_append _ _)
+
+/-- **The trust decision is complete**: whatever scheme and host a configured string admits, the
+    handler trusts (written `scheme://host`). -/
+theorem trusted_complete (raw : List Bytes) (cfg : Cfg)
+    (hb : buildLoop raw [] [] = some (cfg.origins, cfg.subs)) (sch host : Bytes)
+    (ha : (raw.filterMap specEntry).any (·.admits sch host) = true) :
+    trusted cfg (sch ++ b "://" ++ host) = true := by
+  simp only [List.any_eq_true] at ha
+  obtain ⟨e, hmem, hadm⟩ := ha
+  obtain ⟨r, hr, he⟩ := List.mem_filterMap.mp hmem
+  unfold trusted
+  simp only [Bool.or_eq_true, List.any_eq_true]
+  rcases buildLoop_complete raw [] [] _ _ hb r hr e he with ⟨n, hn, hrel⟩ | ⟨sd, hsd, hrel⟩
+  · left
+    rw [admits_exactRel n e sch host hrel hadm]
+    simpa using hn
+  · right
+    exact ⟨sd, hsd, admits_wildRel sd e sch host hrel hadm⟩
+
+/-- **The trust decision is exact**: the handler trusts `scheme://host` iff a configured string admits
+    that scheme and host. -/
+theorem trusted_iff (raw : List Bytes) (cfg : Cfg)
+    (hb : buildLoop raw [] [] = some (cfg.origins, cfg.subs)) (sch host : Bytes) (hc : 58 ∉ sch) :
+    trusted cfg (sch ++ b "://" ++ host) = (raw.filterMap specEntry).any (·.admits sch host) := by
+  rw [Bool.eq_iff_iff]
+  exact ⟨trusted_sound raw cfg hb sch host hc, trusted_complete raw cfg hb sch host⟩
+
+/-- the decision of `originMatchesHost` / `refererMatchesHost` on a parsed header is the
+    specification's `originAllowed` -/
+theorem allowed_eq (raw : List Bytes) (cfg : Cfg)
+    (hb : buildLoop raw [] [] = some (cfg.origins, cfg.subs)) (q : Req) (u : UrlInfo) (hu : u.wf) :
+    originAllowed (specConfig cfg.backend cfg.ext cfg.single cfg.idle raw) q u =
+      (u.ok && (decide (u.scheme = reqScheme q ∧ u.host = reqHost q) || trusted cfg (u.scheme ++ b "://" ++ u.host))) := by
+  unfold originAllowed sameOrigin reqHost
+  rw [trusted_iff raw cfg hb _ _ hu]
+  simp only [specConfig]
+  cases u.ok <;> simp [Bool.decide_and]
+
+/-- `originMatchesHost` returns nil exactly when the Origin is allowed (an Origin being present) -/
+theorem originCheck_none_iff (raw : List Bytes) (cfg : Cfg)
+    (hb : buildLoop raw [] [] = some (cfg.origins, cfg.subs)) (q : Req) (hp : originPresent q = true) :
+    originCheck cfg q = none ↔ originAllowed (specConfig cfg.backend cfg.ext cfg.single cfg.idle raw) q q.ourl = true := by
+  rw [allowed_eq raw cfg hb q q.ourl q.ourl_wf]
+  unfold originPresent at hp
+  simp only [Bool.and_eq_true, decide_eq_true_eq, ne_eq] at hp
+  have h0 : ¬ (toLower q.origin = [] ∨ toLower q.origin = b "null") := by
+    intro h; rcases h with h | h
+    · exact hp.1 h
+    · exact hp.2 h
+  unfold originCheck
+  simp only [h0, if_false]
+  cases hok : q.ourl.ok
+  · simp
+  · simp only [Bool.not_true, Bool.false_eq_true, if_false, Bool.true_and, Bool.or_eq_true, decide_eq_true_eq]
+    by_cases hs : q.ourl.scheme = reqScheme q ∧ q.ourl.host = reqHost q
+    · simp [hs]
+    · simp only [hs, if_false, false_or]
+      simp
+
+/-- `refererMatchesHost` returns nil exactly when the Referer is allowed (a Referer being present) -/
+theorem refererCheck_none_iff (raw : List Bytes) (cfg : Cfg)
+    (hb : buildLoop raw [] [] = some (cfg.origins, cfg.subs)) (q : Req) (hp : toLower q.referer ≠ []) :
+    refererCheck cfg q = none ↔ originAllowed (specConfig cfg.backend cfg.ext cfg.single cfg.idle raw) q q.rurl = true := by
+  rw [allowed_eq raw cfg hb q q.rurl q.rurl_wf]
+  unfold refererCheck
+  simp only [hp, if_false]
+  cases hok : q.rurl.ok
+  · simp
+  · simp only [Bool.not_true, Bool.false_eq_true, if_false, Bool.true_and, Bool.or_eq_true, decide_eq_true_eq]
+    by_cases hs : q.rurl.scheme = reqScheme q ∧ q.rurl.host = reqHost q
+    · simp [hs]
+    · simp only [hs, if_false, false_or]
+      simp
+
+/-- **The gate decides exactly as the specification reads the headers**: with an Origin present the
+    gate opens iff that origin is allowed; without one, on https with a Referer present, iff the
+    referer's origin is allowed; on https with neither header it stays shut (strict referer
+    checking, stricter than the property asks); on plain http without Origin it opens. -/
+theorem gate_exact (raw : List Bytes) (cfg : Cfg)
+    (hb : buildLoop raw [] [] = some (cfg.origins, cfg.subs)) (q : Req) :
+    originGate cfg q =
+      if originPresent q then originAllowed (specConfig cfg.backend cfg.ext cfg.single cfg.idle raw) q q.ourl
+      else if q.https then
+        (if toLower q.referer ≠ [] then originAllowed (specConfig cfg.backend cfg.ext cfg.single cfg.idle raw) q q.rurl
+         else false)
+      else true := by
+  by_cases hp : originPresent q = true
+  · rw [if_pos hp]
+    have h1 := originCheck_none_iff raw cfg hb q hp
+    unfold originGate
+    cases hc : originCheck cfg q with
+    | none => simp only; exact (h1.mp hc).symm
+    | some e =>
+      have hne : originAllowed (specConfig cfg.backend cfg.ext cfg.single cfg.idle raw) q q.ourl = false := by
+        cases ha : originAllowed (specConfig cfg.backend cfg.ext cfg.single cfg.idle raw) q q.ourl
+        · rfl
+        · have := h1.mpr ha; rw [hc] at this; cases this
+      rw [hne]
+      -- a present Origin never yields `notFound`
+      have hnf : e ≠ .notFound := by
+        intro he; subst he
+        unfold originPresent at hp
+        simp only [Bool.and_eq_true, decide_eq_true_eq, ne_eq] at hp
+        unfold originCheck at hc
+        have h0 : ¬ (toLower q.origin = [] ∨ toLower q.origin = b "null") := by
+          intro h; rcases h with h | h
+          · exact hp.1 h
+          · exact hp.2 h
+        simp only [h0, if_false] at hc
+        split at hc
+        · cases hc
+        · split at hc
+          · cases hc
+          · split at hc <;> cases hc
+      cases e <;> simp at hnf ⊢
+  · rw [if_neg hp]
+    have hp' : toLower q.origin = [] ∨ toLower q.origin = b "null" := by
+      unfold originPresent at hp
+      simp only [Bool.and_eq_true, decide_eq_true_eq, ne_eq, not_and, Decidable.not_not] at hp
+      by_cases h : toLower q.origin = []
+      · exact Or.inl h
+      · exact Or.inr (hp h)
+    have hc : originCheck cfg q = some .notFound := by
+      unfold originCheck; simp only [hp', if_true]
+    unfold originGate
+    rw [hc]
+    simp only
+    cases hs : q.https
+    · simp
+    · simp only [if_true]
+      by_cases hr : toLower q.referer = []
+      · have : refererCheck cfg q = some .notFound := by unfold refererCheck; simp only [hr, if_true]
+        simp [this, hr]
+      · have h2 := refererCheck_none_iff raw cfg hb q hr
+        simp only [ne_eq, hr, not_false_eq_true, if_true]
+        cases hc2 : refererCheck cfg q with
+        | none => simp only [Option.isNone_none]; exact (h2.mp hc2).symm
+        | some e =>
+          simp only [Option.isNone_some]
+          cases ha : originAllowed (specConfig cfg.backend cfg.ext cfg.single cfg.idle raw) q q.rurl
+          · rfl
+          · have := h2.mpr ha; rw [hc2] at this; cases this
 
 /-- **Origin gate.** When the handler lets an unsafe request past the Origin/Referer checks, the
     specification's origin clause holds: a present Origin (or, on https without Origin, a present
     Referer) parses and is the request's own scheme and host, or is admitted by a configured entry
     (exact, or wildcard on a dot boundary); never the path, query or fragment. -/
 theorem gate_sound (raw : List Bytes) (cfg : Cfg)
-    (hb : buildLoop raw [] [] = some (cfg.origins, cfg.subs)) (q : Req)
-    (ho : q.ourl.wf) (hr : q.rurl.wf) (hg : originGate cfg q = true) :
+    (hb : buildLoop raw [] [] = some (cfg.origins, cfg.subs)) (q : Req) (hg : originGate cfg q = true) :
     originClause (specConfig cfg.backend cfg.ext cfg.single cfg.idle raw) q = true := by
+  have ho : q.ourl.wf := q.ourl_wf
+  have hr : q.rurl.wf := q.rurl_wf
   have key : ∀ u : UrlInfo, u.wf → u.ok = true →
       ((u.scheme = reqScheme q ∧ u.host = reqHost q) ∨ trusted cfg (u.scheme ++ b "://" ++ u.host) = true) →
       originAllowed (specConfig cfg.backend cfg.ext cfg.single cfg.idle raw) q u = true := by
